@@ -161,6 +161,139 @@ def run_live_closure(case):
         return out
 
 
+
+
+# ---------------------------------------------------------------------------------------------------------------------
+# orders on a live framework: placements (execution layer stubbed: packages captured), order-stream snapshots, closures
+def current_order_row(r, orders_by_name, strategies):
+    """r: {"ref": name of a local order | ["foreign", strategy idx|name, id], "bet": str, "status": .., "matched": c, "remaining": c, "cancelled": c, ...}"""
+    import types
+    if isinstance(r["ref"], list):
+        from flumine.utils import create_cheap_hash, STRATEGY_NAME_HASH_LENGTH
+        h = strategies[r["ref"][1]].name_hash if isinstance(r["ref"][1], int) else create_cheap_hash(r["ref"][1], STRATEGY_NAME_HASH_LENGTH)
+        ref = "%s-%s" % (h, r["ref"][2])
+    else:
+        ref = orders_by_name[r["ref"]].customer_order_ref
+    f = lambda k: r.get(k, 0) / 100
+    return types.SimpleNamespace(
+        customer_order_ref=ref, customer_strategy_ref="x", market_id=r["market"], bet_id=r["bet"], selection_id=r.get("sel", 101), handicap=r.get("hc", 0),
+        order_type="LIMIT", side=r.get("side", "BACK"), status=r["status"], persistence_type="LAPSE",
+        price_size=types.SimpleNamespace(price=r.get("price", 200) / 100, size=(r.get("matched", 0) + r.get("remaining", 0) + r.get("cancelled", 0) + r.get("lapsed", 0) + r.get("voided", 0)) / 100),
+        size_matched=f("matched"), size_remaining=f("remaining"), size_cancelled=f("cancelled"), size_lapsed=f("lapsed"), size_voided=f("voided"),
+        average_price_matched=r.get("avg", 0) / 100, bsp_liability=0.0,
+        placed_date=Clock.now, matched_date=None, cancelled_date=None, lapsed_date=None)
+
+
+def dump_blotter(fw, strategies, cls, name_of):
+    out = {}
+    for mid, market in fw.markets.markets.items():
+        bl = market.blotter
+        tix = {}
+        tname = lambda t: tix.setdefault(id(t), len(tix))
+        cidx = {id(c): i for i, c in enumerate(cls)}
+        sidx = {id(s): i for i, s in enumerate(strategies)}
+        out[mid] = {
+            "closed": market.closed,
+            "orders": [[name_of(o), sidx.get(id(o.trade.strategy), -1), o.selection_id, cidx.get(id(o.client), -1), tname(o.trade), o.bet_id,
+                        o.status.value if o.status else None, int(round((o.size_matched or 0) * 100)), int(round((o.size_remaining or 0) * 100)), o.complete,
+                        o.trade.status.value] for o in bl._orders.values()],
+            "keys_match": all(k == o.id for k, o in bl._orders.items()),
+            "strategy": {str(sidx.get(id(st), -1)): [name_of(o) for o in os_] for st, os_ in bl._strategy_orders.items()},
+            "selection": {"%d/%s" % (sidx.get(id(k[0]), -1), k[1]): [name_of(o) for o in os_] for k, os_ in bl._strategy_selection_orders.items()},
+            "client": {str(cidx.get(id(c), -1)): [name_of(o) for o in os_] for c, os_ in bl._client_orders.items()},
+            "client_strategy": {"%d/%d" % (cidx.get(id(k[0]), -1), sidx.get(id(k[1]), -1)): [name_of(o) for o in os_] for k, os_ in bl._client_strategy_orders.items()},
+            "trades": {str(tname(t)): [name_of(o) for o in os_] for t, os_ in bl._trades.items()},
+            "bet_lookup": {str(b): name_of(o) for b, o in bl._bet_id_lookup.items()},
+            "live": [name_of(o) for o in bl._live_orders],
+            "lookups_ok": all(fw.markets.get_order(mid, o.id) is o for o in bl._orders.values()),
+            "ctx": {"%d/%s/%s" % (i, k[1], k[2]): [len(rc.trades), len(rc.live_trades)] for i, s in enumerate(strategies) for k, rc in s._invested.items() if k[0] == mid},
+        }
+    return out
+
+
+def run_live_orders(case):
+    """case: {"strategies": n, "steps": [...]}; steps:
+       ["book", mid, status] ["advance", s]
+       ["place", mid, name, strat, sel, side, price_c, size_c]      market.place_order with a real BetfairOrder (package captured, not sent)
+       ["ack", name, bet]                                          what a SUCCESS place response does: bet id + executable()
+       ["stream", [rows]]                                          CurrentOrdersEvent through fw._process_current_orders
+    """
+    import types
+    from flumine.order.trade import Trade
+    from flumine.order.ordertype import LimitOrder
+    Clock.now = real_datetime.datetime(2024, 1, 1, 12, 0, 0)
+    with mock.patch.object(market_module, "datetime", FakeDatetimeModule):
+        betting_client = mock.Mock(); betting_client.username = "u"; betting_client.lightweight = False
+        client = clients.BetfairClient(betting_client)
+        fw = Flumine(client=client)
+        log = []
+        strategies = []
+        mids = sorted({s[1] for s in case["steps"] if s[0] in ("book", "place")})
+        for i in range(case["strategies"]):
+            st = Strat(i, log, market_filter={"marketIds": mids}, name="s%d" % i, max_trade_count=10 ** 6, max_live_trade_count=10 ** 6,
+                       max_order_exposure=None, max_selection_exposure=None)
+            fw.add_strategy(st)
+            strategies.append(st)
+        packages = []
+        fw.process_order_package = lambda p: packages.append([p.package_type.value, [name_of(o) for o in p._orders]])
+        from flumine.streams.marketstream import MarketStream
+        stream = [s for s in fw.streams if isinstance(s, MarketStream)][0]
+        q = queue.Queue()
+        ls = StreamListener(output_queue=q, max_latency=None)
+        ls.register_stream(stream.stream_id, "marketSubscription")
+        names, rev = {}, {}
+        def name_of(o):
+            if id(o) not in rev:
+                rev[id(o)] = "a%d" % len([k for k in rev.values() if k.startswith("a")])
+                names[rev[id(o)]] = o
+            return rev[id(o)]
+        versions, clk, out = {}, [0], []
+        for step in case["steps"]:
+            res = None
+            if step[0] == "advance":
+                Clock.now = Clock.now + real_datetime.timedelta(seconds=step[1])
+            elif step[0] == "book":
+                _, mid, status = step
+                versions[mid] = versions.get(mid, 0) + 1; clk[0] += 1
+                mc = {"id": mid, "marketDefinition": market_definition(status, "31000001", versions[mid]), "img": True}
+                if status != "CLOSED":
+                    mc["rc"] = [{"id": 101, "atb": [[2.0, 50]], "atl": [[2.1, 50]]}, {"id": 202, "atb": [[2.0, 50]], "atl": [[2.1, 50]]}]
+                ls.on_data(json.dumps({"op": "mcm", "id": stream.stream_id, "clk": str(clk[0]), "pt": Clock.epoch_ms(), "mc": [mc]}))
+                while not q.empty():
+                    fw.handler_queue.put(events.MarketBookEvent(q.get()))
+                pump(fw)
+            elif step[0] == "place":
+                _, mid, name, si, sel, side, price, size = step
+                market = fw.markets.markets.get(mid)
+                if market is not None:
+                    tr = Trade(mid, sel, 0, strategies[si])
+                    o = tr.create_order(side, LimitOrder(price / 100, size / 100))
+                    names[name] = o; rev[id(o)] = name
+                    try:
+                        res = market.place_order(o)
+                    except Exception as e:
+                        res = "EXC:" + type(e).__name__
+            elif step[0] == "ack":
+                o = names.get(step[1])
+                if o is not None and o.status is not None:
+                    o.bet_id = step[2]
+                    o.responses.placed()
+                    with o.trade:
+                        o.executable()
+            elif step[0] == "stream":
+                rows = [current_order_row(r, names, strategies) for r in step[1] if (isinstance(r["ref"], list) or r["ref"] in names)]
+                co = types.SimpleNamespace(client=client, orders=rows)
+                from flumine.clients.clients import ExchangeType
+                ev = events.CurrentOrdersEvent([co], exchange=ExchangeType.BETFAIR)
+                try:
+                    fw._process_current_orders(ev)
+                except Exception as e:
+                    res = "EXC:" + type(e).__name__ + ":" + str(e)[:100]
+            out.append({"res": res, "blotters": dump_blotter(fw, strategies, [client], name_of), "packages": list(packages)})
+        return out
+
+
 if __name__ == "__main__":
     j = json.load(sys.stdin)
-    print(json.dumps({"out": [run_live_closure(c) for c in j["cases"]]}))
+    fn = {"closure": run_live_closure, "orders": run_live_orders}[j.get("job", "closure")]
+    print(json.dumps({"out": [fn(c) for c in j["cases"]]}, default=str))
